@@ -112,28 +112,26 @@ theorem uv_spawn_balanced (npipes : Nat) (heap : Bool) : balanced (uvSpawn npipe
   have key := spawnPairs_balanced heap npipes 0
   cases heap with
   | false =>
-    have hundo : (⟨0, 0, 2 * ((0 + npipes : Nat) : Int), 0, 0, 0⟩ : D) + net (rep (2 * npipes) .fdClose ++ []) = D.zero := by
-      rw [net_append, net_rep_fdClose]; apply D.ext <;> simp [net] <;> omega
-    have k0 := key ([ { eff := [], fault := some .sys, undo := rep (2 * npipes) .fdClose ++ [], label := "sys:fork" },
-                      { eff := rep npipes .fdClose ++ [] ++ [.enq, .hStart], label := "parent" } ])
-    simp only [balanced, uvSpawn, Bool.false_eq_true, if_false, List.nil_append] at k0 ⊢
+    have hundo : (⟨0, 0, 2 * (npipes : Int), 0, 0, 0⟩ : D) + net (rep (2 * npipes) .fdClose) = D.zero := by
+      rw [net_rep_fdClose]; apply D.ext <;> simp <;> omega
     have hz : (⟨0, 0, 2 * ((0 : Nat) : Int), 0, 0, 0⟩ : D) = D.zero := by apply D.ext <;> simp
-    rw [hz] at k0
-    rw [k0]
-    simp [balancedFrom, hundo]
+    simp only [Bool.false_eq_true, if_false] at key
+    rw [hz] at key
+    simp only [balanced, uvSpawn, Bool.false_eq_true, if_false, List.nil_append]
+    rw [key]
+    simp [balancedFrom]
+    exact hundo
   | true =>
-    have hundo : (⟨0, 1, 2 * ((0 + npipes : Nat) : Int), 0, 0, 0⟩ : D) + net (rep (2 * npipes) .fdClose ++ [Eff.free]) = D.zero := by
+    have hundo : (⟨0, 1, 2 * (npipes : Int), 0, 0, 0⟩ : D) + net (rep (2 * npipes) .fdClose ++ [Eff.free]) = D.zero := by
       rw [net_append, net_rep_fdClose]; apply D.ext <;> simp [net, Eff.delta] <;> omega
-    have k0 := key ([ { eff := [], fault := some .sys, undo := rep (2 * npipes) .fdClose ++ [Eff.free], label := "sys:fork" },
-                      { eff := rep npipes .fdClose ++ [Eff.free] ++ [.enq, .hStart], label := "parent" } ])
-    simp only [balanced, uvSpawn, if_true, List.cons_append, List.nil_append, balancedFrom] at k0 ⊢
     have hz : D.zero + net [Eff.alloc] = (⟨0, 1, 2 * ((0 : Nat) : Int), 0, 0, 0⟩ : D) := by
       apply D.ext <;> simp [net, Eff.delta]
     have hz0 : D.zero + net ([] : List Eff) = D.zero := by apply D.ext <;> simp [net]
-    rw [hz, hz0]
-    simp only [if_true] at k0
-    rw [k0]
-    simp [hundo]
+    simp only [if_true] at key
+    simp only [balanced, uvSpawn, if_true, List.cons_append, List.nil_append, balancedFrom, hz, hz0]
+    rw [key]
+    simp [balancedFrom]
+    exact hundo
 
 /-- `uv_os_environ`: for every environment size, a failing copy frees exactly the names copied so far and the array -/
 theorem os_environ_balanced (n : Nat) : balanced (osEnviron n) = true := by
@@ -141,8 +139,8 @@ theorem os_environ_balanced (n : Nat) : balanced (osEnviron n) = true := by
   have hz : D.zero + net [Eff.alloc] = (⟨0, 1 + ((0 : Nat) : Int), 0, 0, 0, 0⟩ : D) := by
     apply D.ext <;> simp [net, Eff.delta]
   have hz0 : D.zero + net ([] : List Eff) = D.zero := by apply D.ext <;> simp [net]
-  simp [balanced, osEnviron, balancedFrom, hz, hz0, h]
-
+  simp only [balanced, osEnviron, balancedFrom, hz, hz0, h]
+  simp
 /-- **fault_atomic** for the catalogue: `uv_write2`, `uv__udp_send`, `uv_fs_*`, `uv_queue_work`, `uv_getaddrinfo`,
 `uv_pipe_bind`, `uv_spawn`, `uv_fs_poll_start`, `uv_os_environ`, for all their parameters -/
 def catalogue : List Op → Prop := fun ops => ∀ op ∈ ops, balanced op = true
@@ -214,12 +212,15 @@ registered (exactly one callback is owed) and the callback carries the mapped co
 theorem pipe_connect2_always_owes_callback (newSock : Bool) (st : D) (f : Fault) :
     (pipeConnect2 newSock st f).2.1 = 0 ∧ (pipeConnect2 newSock st f).1.reqs = st.reqs + 1 ∧
     (∀ k e, f = some (k, e) → k < (if newSock then 2 else 1) → (pipeConnect2 newSock st f).2.2 = -(e : Int)) := by
-  cases newSock <;> (rcases f with _ | ⟨_ | _ | k, e⟩ <;> simp [pipeConnect2])
+  cases newSock <;> (rcases f with _ | ⟨_ | _ | k, e⟩ <;> simp [pipeConnect2] <;> (try omega))
 
 /-! ## accounting under arbitrary operation and fault sequences -/
 
-/-- every submitted operation of the run is balanced -/
-def allBalanced (acts : List Act) : Prop := ∀ a ∈ acts, ∀ op, a.op? = some op → balanced op = true
+/-- every submitted operation of the run is balanced, and injected errnos are real (positive) errnos -/
+def allBalanced (acts : List Act) : Prop :=
+  ∀ a ∈ acts, match a with
+    | .submit op f => balanced op = true ∧ ∀ k e, f = some (k, e) → 0 < e
+    | .complete _ => True
 
 /-- **accounting_survives_faults**: for every sequence of (balanced) operations under every fault schedule —
 any number of faults, any fault points, any errnos — interleaved with completions in any order, the accounting
@@ -235,9 +236,10 @@ theorem accounting_survives_faults (acts : List Act) (hb : allBalanced acts) :
     have hrest : allBalanced rest := fun a' ha' => hb a' (List.mem_cons_of_mem _ ha')
     have hstep : runActs (st, infl) (a :: rest) = runActs (stepAct (st, infl) a) rest := by simp [runActs]
     rw [hstep]
+    have ha := hb a (List.mem_cons_self)
     cases a with
     | submit op f =>
-      have hbal : balanced op = true := hb _ (List.mem_cons_self) op rfl
+      obtain ⟨hbal, hpos⟩ := ha
       cases f with
       | none =>
         have hr := runFrom_none_total op st
@@ -245,39 +247,46 @@ theorem accounting_survives_faults (acts : List Act) (hb : allBalanced acts) :
         exact ih hrest st0 _ _ (by simp only [sumD]; rw [h]; d_arith)
       | some p =>
         obtain ⟨k, e⟩ := p
-        have hat := runFrom_atomic op D.zero st k e hbal
-        rw [D.add_zero] at hat
-        rcases hat with ⟨h1, h2⟩ | ⟨h1, _⟩
+        rcases fault_atomic op hbal st k e (hpos k e rfl) with ⟨h1, h2⟩ | ⟨h1, h2, _⟩
         · simp only [stepAct, h1, if_true]
-          rw [h2, runFrom_none_total]
+          rw [h2]
           exact ih hrest st0 _ _ (by simp only [sumD]; rw [h]; d_arith)
-        · by_cases hz : (runFrom op st (some (k, e))).2 = 0
-          · -- a fault point whose undo list is the whole prefix and the code is 0 cannot occur for e > 0, but the
-            -- bookkeeping is the same: state unchanged means the operation holds nothing
-            simp only [stepAct, hz, if_true]
-            rw [h1]
-            have : total op = D.zero := by
-              have hx := runFrom_atomic op D.zero st k e hbal
-              rw [D.add_zero] at hx
-              rcases hx with ⟨_, hx2⟩ | _
-              · rw [h1, runFrom_none_total] at hx2
-                have e1 := congrArg D.reqs hx2; have e2 := congrArg D.mem hx2; have e3 := congrArg D.fds hx2
-                have e4 := congrArg D.handles hx2; have e5 := congrArg D.queued hx2; have e6 := congrArg D.watches hx2
-                simp at e1 e2 e3 e4 e5 e6
-                apply D.ext <;> simp <;> omega
-              · exact absurd hz (by
-                  intro hz'
-                  -- second disjunct again: no information; fall back on the first run
-                  exact absurd rfl (by simp at *; sorry))
-            exact ih hrest st0 _ _ (by simp only [sumD]; rw [h, this]; d_arith)
-          · simp only [stepAct, hz, if_false]
-            rw [h1]
-            exact ih hrest st0 _ _ h
+        · have hz : ¬ (runFrom op st (some (k, e))).2 = 0 := by omega
+          simp only [stepAct, hz, if_false]
+          rw [h1]
+          exact ih hrest st0 _ _ h
     | complete i =>
       cases hi : infl[i]? with
       | none => simp only [stepAct, hi]; exact ih hrest st0 _ _ h
       | some d =>
         simp only [stepAct, hi]
         exact ih hrest st0 _ _ (by rw [h, sumD_eraseIdx infl i d hi]; d_arith)
+
+/-- consequences for the loop: `active_reqs` is the initial count plus the number of callbacks owed by in-flight
+requests, hence never below the initial count when every operation registers 0 or 1 request; and once everything
+in flight has completed, counters and ledger are exactly the initial ones (the loop can finish; nothing leaked). -/
+theorem reqs_eq_owed_and_drained (acts : List Act) (hb : allBalanced acts) (st0 : D) :
+    (runActs (st0, []) acts).1.reqs = st0.reqs + (sumD (runActs (st0, []) acts).2).reqs ∧
+    ((runActs (st0, []) acts).2 = [] → (runActs (st0, []) acts).1 = st0) := by
+  have h := accounting_survives_faults acts hb st0 st0 [] (by simp [sumD, D.add_zero])
+  refine ⟨by rw [h]; simp, fun hnil => ?_⟩
+  rw [h, hnil]; simp [sumD, D.add_zero]
+
+theorem sumD_reqs_nonneg : ∀ (l : List D), (∀ d ∈ l, 0 ≤ d.reqs) → 0 ≤ (sumD l).reqs := by
+  intro l
+  induction l with
+  | nil => intro _; simp [sumD]
+  | cons d ds ih =>
+    intro h
+    have h1 := h d (List.mem_cons_self)
+    have h2 := ih (fun d' hd' => h d' (List.mem_cons_of_mem _ hd'))
+    simp [sumD]; omega
+
+-- a schedule with two faults, a success and a completion: uv_write2(ENOMEM), uv_spawn(EMFILE at the 2nd pair),
+-- uv_write2 ok, fs_poll_start(ENOMEM at the path copy), completion of the write
+example : runActs (⟨0, 0, 3, 1, 0, 0⟩, []) [.submit (uvWrite2 6) (some (0, ENOMEM)), .submit (uvSpawn 2 false) (some (1, EMFILE)),
+    .submit (uvWrite2 6) none, .submit fsPollStart (some (1, ENOMEM)), .complete 0] = (⟨0, 0, 3, 1, 0, 0⟩, []) := by decide
+example : (runActs (⟨0, 0, 3, 1, 0, 0⟩, []) [.submit (uvWrite2 6) none, .submit getaddrinfoAsync (some (0, ENOMEM)),
+    .submit queueWork none]).1.reqs = 2 := by decide
 
 end UvModel.Fault
